@@ -27,6 +27,15 @@ def blob(name=None):
     return d
 
 
+def blob_of(attr):
+    """a byte string that carries the named attribute of the message"""
+    return {'lp': 4, 'body': [{'raw': '*', 'attr': attr}]}
+
+
+def string_of(enc, attr):
+    return {'lp': 4, 'body': [{'text': enc, 'attr': attr}]}
+
+
 def mpint(name=None):
     d = {'sshmpint': 1}
     if name:
@@ -64,19 +73,19 @@ kexinit_attrs = ['kex_algorithms', 'host_key_algorithms', 'encryption_algorithms
 for n in sorted(set(namelists)):
     entry(n, 'RFC 4251 5 name-list: uint32 length + comma separated US-ASCII names (empty list: length 0)',
           [{'lp': 4, 'body': [{'text': 'ascii'}]}])
-entry('SshKeyExchangeInit', 'RFC 4253 7.1 SSH_MSG_KEXINIT', msg('KEXINIT', [{'raw': 16, 'name': 'cookie'}] + [dict(S(n), attr=a) for n, a in zip(namelists, kexinit_attrs)] +
-                                                                 [{'u': 1, 'name': 'first_kex_packet_follows'}, {'u': 4, 'name': 'reserved'}]))
+entry('SshKeyExchangeInit', 'RFC 4253 7.1 SSH_MSG_KEXINIT', msg('KEXINIT', [{'raw': 16, 'name': 'cookie', 'attr': 'cookie'}] + [dict(S(n), attr=a) for n, a in zip(namelists, kexinit_attrs)] +
+                                                                 [{'u': 1, 'name': 'first_kex_packet_follows', 'attr': 'first_kex_packet_follows'}, {'u': 4, 'name': 'reserved', 'attr': 'reserved'}]))
 entry('SshDisconnectMessage', 'RFC 4253 11.1 SSH_MSG_DISCONNECT: uint32 reason, string description (ISO-10646 UTF-8), string language tag',
-      msg('DISCONNECT', [{'u': 4}, string('utf-8'), string('ascii')]))
-entry('SshUnimplementedMessage', 'RFC 4253 11.4 SSH_MSG_UNIMPLEMENTED: uint32 sequence number', msg('UNIMPLEMENTED', [{'u': 4}]))
-entry('SshDHKeyExchangeInit', 'RFC 4253 8 SSH_MSG_KEXDH_INIT: mpint e (uint32 length + bytes)', msg('KEXDH_INIT', [blob('e')]))
-entry('SshDHGroupExchangeInit', 'RFC 4419 3 SSH_MSG_KEX_DH_GEX_INIT: mpint e', msg('GEX_INIT', [blob('e')]))
+      msg('DISCONNECT', [{'u': 4, 'attr': 'reason'}, string_of('utf-8', 'description'), string_of('ascii', 'language')]))
+entry('SshUnimplementedMessage', 'RFC 4253 11.4 SSH_MSG_UNIMPLEMENTED: uint32 sequence number', msg('UNIMPLEMENTED', [{'u': 4, 'attr': 'sequence_number'}]))
+entry('SshDHKeyExchangeInit', 'RFC 4253 8 SSH_MSG_KEXDH_INIT: mpint e (uint32 length + bytes)', msg('KEXDH_INIT', [blob_of('ephemeral_public_key')]))
+entry('SshDHGroupExchangeInit', 'RFC 4419 3 SSH_MSG_KEX_DH_GEX_INIT: mpint e', msg('GEX_INIT', [blob_of('ephemeral_public_key')]))
 entry('SshDHKeyExchangeReply', 'RFC 4253 8 SSH_MSG_KEXDH_REPLY: string K_S, mpint f, string signature',
-      msg('KEXDH_REPLY', [wrapped(['SshHostPublicKeyVariant', 'SshPublicKeyBase']), blob('f'), blob('signature')]))
+      msg('KEXDH_REPLY', [wrapped(['SshHostPublicKeyVariant', 'SshPublicKeyBase']), blob_of('ephemeral_public_key'), blob_of('signature')]))
 entry('SshDHGroupExchangeReply', 'RFC 4419 3 SSH_MSG_KEX_DH_GEX_REPLY: string K_S, mpint f, string signature',
-      msg('GEX_REPLY', [wrapped(['SshHostPublicKeyVariant', 'SshPublicKeyBase']), blob('f'), blob('signature')]))
-entry('SshDHGroupExchangeRequest', 'RFC 4419 3 SSH_MSG_KEX_DH_GEX_REQUEST: uint32 min, uint32 n, uint32 max', msg('GEX_REQUEST', [{'u': 4, 'name': 'min'}, {'u': 4, 'name': 'n'}, {'u': 4, 'name': 'max'}]))
-entry('SshDHGroupExchangeGroup', 'RFC 4419 3 SSH_MSG_KEX_DH_GEX_GROUP: mpint p, mpint g', msg('GEX_GROUP', [blob('p'), blob('g')]))
+      msg('GEX_REPLY', [wrapped(['SshHostPublicKeyVariant', 'SshPublicKeyBase']), blob_of('ephemeral_public_key'), blob_of('signature')]))
+entry('SshDHGroupExchangeRequest', 'RFC 4419 3 SSH_MSG_KEX_DH_GEX_REQUEST: uint32 min, uint32 n, uint32 max', msg('GEX_REQUEST', [{'u': 4, 'name': 'min', 'attr': 'gex_min'}, {'u': 4, 'name': 'n', 'attr': 'gex_number'}, {'u': 4, 'name': 'max', 'attr': 'gex_max'}]))
+entry('SshDHGroupExchangeGroup', 'RFC 4419 3 SSH_MSG_KEX_DH_GEX_GROUP: mpint p, mpint g', msg('GEX_GROUP', [blob_of('p'), blob_of('g')]))
 entry('SshNewKeys', 'RFC 4253 7.3 SSH_MSG_NEWKEYS', msg('NEWKEYS', []))
 # binary packet
 for n, v in (('SshRecordInit', 'SshMessageVariantInit'), ('SshRecordKexDH', 'SshMessageVariantKexDH'), ('SshRecordKexDHGroup', 'SshMessageVariantKexDHGroup')):
